@@ -352,7 +352,7 @@ func execC14(x *Ctx, sc *wire.Scenario) *wire.Result {
 type c15X struct {
 	Prefix string `json:"prefix"`
 	Setup  int    `json:"setup"`
-	Dir    string `json:"dir"` // forward | backward | mixed
+	Dir    string `json:"dir"`            // forward | backward | mixed
 	Warm   int    `json:"warm,omitempty"` // tokens of an earlier Readline call of the same shell
 }
 
